@@ -10,7 +10,7 @@ Conformance     for every universe element (base image of gen/mkbase.py x corrup
                 with the independent reader, and let TLC (spec/Trace_Tools.tla, action TFsckN) evaluate
                 FailedConjuncts(st0) and C02_Holds on the logged line.  No verdict is computed in python.
 Universe        base images x catalogue (singles, pairs, closed triples) + Corrupt.tla!C02Closed (relocated bitmap pointers, resize-inode
-                map) + Corrupt.tla!C02Bounds (the high halves that exist only with 64bit descriptors / in the inode body, and the exact
+                map, boundary triples) + Corrupt.tla!C02Bounds (the high halves that exist only with 64bit descriptors / in the inode body, and the exact
                 boundary values of every block-number, inode-number and per-group-count range test) + the tool-built images of
                 gen/c02_extras.py, as built AND under the superblock recipes of Corrupt.tla!ExtraHashRecipes / ExtraSbRecipes (every bit of
                 s_flags, every s_def_hash_version, the Superblock table; checksum recomputed; the reader judges the htree with the hash the
@@ -49,6 +49,10 @@ FLAGGED_EVERY = 8
 SELFTEST = {"recorded": "2026-09-28", "tree": "/repo a9b77b7d + fixes/C02_pass0_declined_exit.patch + fixes/C02_extent_node_depth.patch",
             "mutants/C02_extent_dup_unrecorded.patch": "CAUGHT (closed triple file_small.ee_start.alias_other + bitmap + group count: exit 0 with SingleOwner false)",
             "mutants/C02_filetype_ge.patch": "CAUGHT (dirblk_root.dlast_file_type.wrong: exit 0 with Links false)",
+            "mutants/C02_free_inodes_hi_ignored.patch": "CAUGHT 2026-09-29 on /repo e1f5d8e7 (C02Bounds gd_mid.bg_free_inodes_hi.max on holes: exit 0 with GroupCounts false)",
+            "mutants/C02_process_block_gt.patch": "CAUGHT 2026-09-29 on /repo e1f5d8e7 (C02Closed!BoundTriples file_small.ib0.first_invalid + bitmap + group count on the block-mapped profiles: exit 0 with InRange false; the single-field recipe alone is flagged by pass 5)",
+            "seeded C02_1..C02_6": "bin/seedcheck 2026-09-29: all six exit 1 (C02_4: extra:tea_signed + sb.s_flags.tog_unsigned_hash / tog_both_hash, Shapes; "
+                                   "C02_5: gd_*.bg_used_dirs_hi.* on the 64bit profiles, GroupCounts; C02_6: <named inode>.file_acl.first_invalid, InRange)",
             "design mutants of Fsck.tla": "MutNoDupCheck violates InvC02, MutPass5NotWritten violates InvC01 (checked by every run)"}
 
 
@@ -532,7 +536,8 @@ def run(tier):
             "states the reader cannot produce or whose certificates CertOK rejects are 'unknown' and not counted (%d this run)" % st["unknown"],
             "global superblock free counts and the other PR_NO_OK tolerances of DESIGN.md section 5 C02 are not part of Consistent",
             "besides the catalogue x base images, both tiers run every bindable element of Corrupt.tla!C02Closed (bitmap pointers of unread groups relocated onto every kind of "
-            "fixed metadata of group 0 / an earlier / a later group with the bookkeeping fixed up; entries of the resize inode's reserved-GDT map) and evaluate the property on "
+            "fixed metadata of group 0 / an earlier / a later group with the bookkeeping fixed up; entries of the resize inode's reserved-GDT map; BoundTriples: a data pointer "
+            "set to blocks_count - 1 / blocks_count / first_data_block / first_data_block - 1 with the released block's bitmap bit and group count fixed up) and evaluate the property on "
             "C02's own tool-built images (gen/c02_extras.py: htree directories with names >= 0x80 under legacy / half_md4 / tea x signed / unsigned, a detached directory cycle)",
             "both tiers run every bindable element of Corrupt.tla!C02Bounds on every base image (high halves *_hi of the group descriptor and of the inode; block numbers "
             "blocks_count - 1 / blocks_count / first_data_block / first_data_block - 1, inode numbers inodes_count / inodes_count + 1 / first_ino - 1, per-group counts "
